@@ -274,6 +274,9 @@ impl<'a> Trees<'a> {
         fetch_free: impl Fn(TreeId) -> usize,
     ) -> Result<()> {
         if let Some(i) = matcher.id {
+            if i.0 >= self.len() {
+                return Err(Error::Argument);
+            }
             self.change_at(i, matcher.class, matcher.free, change, || fetch_free(i))
         } else {
             self.search(TreeId(0), 0, self.len(), |i| {
